@@ -139,6 +139,11 @@ func NewParagraphReader(reader io.Reader, keyring *openpgp.EntityList) (*Paragra
 	// and do the decode dance.
 	line, _ := bufioReader.Peek(15)
 	if string(line) != "-----BEGIN PGP " {
+		if keyring != nil {
+			/* The caller asked for signature checking. Handing back text
+			 * nobody signed, with a nil Signer, is not what they want. */
+			return nil, fmt.Errorf("Keyring given, but the input is not OpenPGP clearsigned")
+		}
 		return &ret, nil
 	}
 
